@@ -17,7 +17,7 @@ EXPLANATION = (
     'guarded map is only called on the mutable (new) cache. Decides absence '
     'of deadlock and of data races on guarded state; equivalence with a '
     'sequential run (atomicity across critical sections) is not decided.'
-    " R9.5: shared mkdir tolerates a concurrent creator (handler that swallows FileExistsError / exist_ok). R9.6: whenever a reservation is counted the caller's created directories are consulted before the loop is left, so a concurrently created directory keeps an owner. R9.7: guarded counters are read and incremented in one critical section. R9.8: a rejected call releases its directory reservation (typestate of C14 on _build_file). R9.9: the claim/run/finish protocol of C08 (R8.2, R8.3).")
+    " R9.5: shared mkdir tolerates a concurrent creator (handler that swallows FileExistsError / exist_ok). R9.6: whenever a reservation is counted the caller's created directories are consulted before the loop is left, so a concurrently created directory keeps an owner. R9.7: guarded counters are read and incremented in one critical section. A ticket taken from len() of a guarded collection needs the collection to grow in the same critical section. R9.8: a rejected call releases its directory reservation (typestate of C14 on _build_file). R9.9: the claim/run/finish protocol of C08 (R8.2, R8.3).")
 # round 3/4 additions
 EXPLANATION += (
     ' R9.3 includes a census of the shared mutable state of the lock-owning classes (guarded, or read-only after construction with that verified). R9.6 also decides completeness of the ownership transfer on the already-reserved path. R9.9 includes the subtree repeat test (R8.2b) and the failure order of build_file (R10.2).')
@@ -587,8 +587,88 @@ def r9_7(ctx, rc):
                         rc.ok({'counter': cname + '.' + fld,
                                'read_and_increment': 'one critical section'},
                               key=key)
+    n += _length_tickets(ctx, rc)
     if n == 0:
         raise AnalysisError('no guarded counter found')
+
+
+def _length_tickets(ctx, rc):
+    """A ticket taken from the size of a guarded collection
+    (``value = len(self._backups)``) and used to build a name is unique only
+    if the collection grows in the same critical section; otherwise two
+    threads read the same length before either appends."""
+    prog = ctx.prog
+    n = 0
+    grow = ('append', 'add', 'extend', 'insert', 'setdefault', 'update')
+    for cname, tbl in L.GUARDS.items():
+        for m in prog.classes[cname].methods.values():
+            if m.name == '__init__':
+                continue
+            cfg = ctx.E.cfgs.get(m)
+
+            def self_attr(e):
+                return isinstance(e, ast.Attribute) and isinstance(
+                    e.value, ast.Name) and e.value.id == m.self_name and \
+                    e.attr in tbl
+
+            def region(cn, fld):
+                return [id(it) for it in cn.with_stack
+                        if ctx.H.lock_of_item(it, m) == (cname, tbl[fld])]
+            reads, grows = [], []
+            for cn in cfg.nodes:
+                if cn.kind != 'stmt':
+                    continue
+                st = cn.ast
+                if isinstance(st, ast.Assign) and all(
+                        isinstance(t, ast.Name) for t in st.targets):
+                    for x in ast.walk(st.value):
+                        if isinstance(x, ast.Call) and isinstance(
+                                x.func, ast.Name) and x.func.id == 'len' \
+                                and len(x.args) == 1 and self_attr(x.args[0]):
+                            reads.append((x.args[0].attr, cn,
+                                          [t.id for t in st.targets]))
+                for x in ast.walk(st) if not isinstance(
+                        st, (ast.With, ast.If, ast.While, ast.For,
+                             ast.Try)) else ():
+                    if isinstance(x, ast.Call) and isinstance(
+                            x.func, ast.Attribute) and x.func.attr in grow \
+                            and self_attr(x.func.value):
+                        grows.append((x.func.value.attr, cn))
+            for fld, rcn, names in reads:
+                # a ticket: the local takes part in building a name
+                used = False
+                for y in ast.walk(m.node):
+                    if isinstance(y, (ast.BinOp, ast.AugAssign)) and \
+                            isinstance(y.op, (ast.Mod, ast.FloorDiv,
+                                              ast.RShift, ast.BitAnd)) or \
+                            isinstance(y, ast.JoinedStr) or (
+                                isinstance(y, ast.Call) and isinstance(
+                                    y.func, ast.Attribute) and
+                                y.func.attr in ('format', 'join')):
+                        if any(isinstance(z, ast.Name) and z.id in names
+                               for z in ast.walk(y)):
+                            used = True
+                            break
+                if not used:
+                    continue
+                n += 1
+                key = 'length ticket %s.%s in %s' % (cname, fld, m.qualname)
+                rreg = region(rcn, fld)
+                if rreg and any(f == fld and region(g, fld) == rreg
+                                for f, g in grows):
+                    rc.ok({'ticket': 'len(%s.%s)' % (cname, fld),
+                           'read_and_grow': 'one critical section'}, key=key)
+                else:
+                    rc.violation(
+                        'ticket-from-length | ' + key,
+                        'a name is derived from len(%s.%s), but the '
+                        'collection does not grow in the critical section '
+                        'that reads its length: two threads can obtain the '
+                        'same value (duplicate backup file name - one '
+                        'backup overwrites the other and rollback restores '
+                        'the wrong bytes)' % (cname, fld),
+                        prog.loc(m, rcn.ast), key=key)
+    return n
 
 
 def r9_8(ctx, rc):
